@@ -695,7 +695,8 @@ class Expression(Element, ABC):
         if isinstance(expression, One):
             return self
         elif isinstance(expression, Fraction):
-            return Fraction(self * expression.denominator, expression.numerator)
+            # divide by the numerator through the operator, so that x / (1 / y) is x * y and not (x * y) / 1
+            return (self * expression.denominator) / expression.numerator
         else:
             return Fraction(self, expression)
 
